@@ -4,6 +4,7 @@ package main
 
 import (
 	"verif/harness/fw"
+	_ "verif/props/c05"
 	_ "verif/props/c06"
 	_ "verif/props/c07"
 	_ "verif/props/c14"
